@@ -167,7 +167,7 @@ def sessions(draw):
 
 
 PARTS = [
-    Part('universes', 'hyp', run_universe, strategy=universes(), quick=2000, thorough=320000, quick_shards=4),
-    Part('optimisers', 'hyp', run_optimiser, strategy=optimisers(), quick=1000, thorough=160000, quick_shards=4),
-    Part('sessions', 'hyp', run_sess, strategy=sessions(), quick=400, thorough=48000, quick_shards=8),
+    Part('universes', 'hyp', run_universe, strategy=universes(), quick=5000, thorough=320000, quick_shards=4),
+    Part('optimisers', 'hyp', run_optimiser, strategy=optimisers(), quick=3000, thorough=160000, quick_shards=4),
+    Part('sessions', 'hyp', run_sess, strategy=sessions(), quick=800, thorough=48000, quick_shards=8),
 ]
